@@ -1052,7 +1052,7 @@ def replay_file(prop, path, items):
         from .props import pinned_probe
 
         enga.init()
-        bad = [r for r in pinned_probe.run() + pinned_probe.run_adjoint() + pinned_probe.run_nested() + pinned_probe.run_complex() if r["key"] == cex.get("key") and r["status"] == "violation"]
+        bad = [r for r in pinned_probe.run() + pinned_probe.run_adjoint() + pinned_probe.run_nested() + pinned_probe.run_complex() + pinned_probe.run_linear_extreme() if r["key"] == cex.get("key") and r["status"] == "violation"]
         for r in bad:
             print("replay %s: %s" % (r["key"], r["detail"]))
         if bad:
@@ -1172,7 +1172,22 @@ def check_adjoint(cfg, tier="quick"):
             eqs.append(adj)
             names.append("<g,jvp(v)> == <vjp(g),v>")
         except ValueError as e:
-            out.status, out.detail = "inconclusive", "structure mismatch between rule results (decided by C05): %s" % e
+            # <vjp(g), v> pairs the reverse map's result with a tangent of the ARGUMENT: if that result does not have the
+            # argument's shape no adjoint pairing exists at all.  Confirm the shapes on float64 before reporting.
+            mism = None
+            try:
+                fr = _adj_floats(cfg, _Default({}, _rng(cfg)))
+                if _shape_struct(fr["G1"]) != _shape_struct(fr["v1"]):
+                    mism = "vjp(g) has structure %s, the argument (and its tangents) %s" % (_shape_struct(fr["G1"]), _shape_struct(fr["v1"]))
+                elif _shape_struct(fr["T1"]) != _shape_struct(fr["g1"]):
+                    mism = "jvp(v) has structure %s, the output (and its cotangents) %s" % (_shape_struct(fr["T1"]), _shape_struct(fr["g1"]))
+            except Exception:
+                pass
+            if mism:
+                out.status, out.detail = "violation", "no adjoint pairing exists: " + mism
+                out.cex = {"env": {}, "mode": "adjoint", "info": mism}
+            else:
+                out.status, out.detail = "inconclusive", "structure mismatch between rule results (decided by C05): %s" % e
             break
         if len(coeffs(res["T12"])) != len(coeffs(res["T1"])) or len(coeffs(res["G12"])) != len(coeffs(res["G1"])):
             out.status, out.detail = "inconclusive", "structure mismatch between rule results (decided by C05)"
@@ -1248,6 +1263,10 @@ def replay_adjoint(cfg, p, model, nm, tol=1e-7):
         r = _adj_floats(cfg, env)
     except Exception as e:
         return False, "float64 run raised %s" % exc_sig(e), dict(env)
+    if _shape_struct(r["G1"]) != _shape_struct(r["v1"]):
+        return True, "no adjoint pairing exists: vjp(g) has structure %s, the argument %s" % (_shape_struct(r["G1"]), _shape_struct(r["v1"])), dict(env)
+    if _shape_struct(r["T1"]) != _shape_struct(r["g1"]):
+        return True, "no adjoint pairing exists: jvp(v) has structure %s, the output %s" % (_shape_struct(r["T1"]), _shape_struct(r["g1"])), dict(env)
     lhs, rhs = cdot(r["g1"], r["T1"]), cdot(r["G1"], r["v1"])
     sc = max(1.0, abs(lhs), abs(rhs))
     if abs(lhs - rhs) > tol * sc:
@@ -1493,6 +1512,10 @@ def check_reuse(cfg, tier="quick"):
 
     paths = explore_cfg(cfg, out, body, opts)
     if paths is None:
+        # the object-dtype engine cannot run this configuration (LAPACK-backed primitives, ...): the float64 protocol alone decides
+        if not _float_reuse_ok(cfg) and _float_reuse_ok.why and not _float_reuse_ok(cfg) and _float_reuse_ok.why:
+            out.status, out.detail = "violation", _float_reuse_ok.why
+            out.cex = {"env": {}, "mode": "reuse"}
         out.time = time.time() - t0
         return out
     nok = 0
@@ -1534,9 +1557,11 @@ def check_reuse(cfg, tier="quick"):
             break
     if out.status is None:
         out.status = "holds" if nok else "raises"
-        if nok:
+        if True:  # also when the object-dtype run only raised (LAPACK-backed rules): the float64 protocol still decides
             if _float_reuse_ok(cfg):
                 out.validated += 1
+                if not nok:
+                    out.status, out.detail = "holds", "decided by the float64 protocol alone (the object-dtype engine cannot run this configuration)"
             elif _float_reuse_ok.why and not _float_reuse_ok(cfg) and _float_reuse_ok.why:
                 # the symbolic (object-dtype) run is clean but the SAME protocol on real float64 memory is not, twice in a
                 # row (dtype-specific fast paths, in-place normalisation of captured index arrays, ...): a violation,
@@ -1569,6 +1594,7 @@ def _float_reuse_ok(cfg):
             g1, g2 = float_like(yv, "g", env), float_like(yv, "h", env)
             _freeze(g1)
             g1c = onp.array(flat_float(g1))
+            yv0 = onp.array(flat_float(yv))  # the primal result handed to the caller (e.g. the U factor of an SVD)
             r1 = vjp(g1)
             r1c = onp.array(flat_float(r1))
             r1b = vjp(g1)
@@ -1577,6 +1603,8 @@ def _float_reuse_ok(cfg):
         same = lambda a_, b_: a_.shape == b_.shape and bool(onp.all((a_ == b_) | (onp.isnan(a_) & onp.isnan(b_))))  # nan results (domain edges) repeat as nan
         ok = same(onp.array(flat_float(r3)), r1c) and same(onp.array(flat_float(r1b)), r1c) and same(onp.array(flat_float(r1)), r1c) and same(onp.array(flat_float(g1)), g1c)
         why = None if ok else "on float64 arrays a repeated call of the VJP function returned a different answer, or an earlier result / the cotangent changed"
+        if not same(onp.array(flat_float(yv)), yv0):
+            ok, why = False, "the primal result returned to the caller was modified by calling the VJP function"
         for a, c in zip(fa, copies):
             if isinstance(a, onp.ndarray) and not onp.array_equal(a, c):
                 ok, why = False, "on float64 arrays an argument array was modified"
@@ -2816,6 +2844,16 @@ def vspace_pairs_check():
                 continue
             if bool(got) != want:
                 fails.append("vspace(%s) == vspace(%s) is %s, expected %s" % (a, b, got, want))
+            # the inequality operator is the negation of equality (a guard written `if vspace(g) != vspace(x): raise` relies on it),
+            # in both operand orders; `in` on lists goes through == as well
+            try:
+                va, vb = vspace(vals[a]), vspace(vals[b])
+                if (va != vb) is not (not (va == vb)) or (vb != va) is not (not (vb == va)) or (va == vb) != (vb == va):
+                    fails.append("vspace(%s) != vspace(%s) is %s while == is %s" % (a, b, va != vb, va == vb))
+                if (va in [vb]) != (va == vb):
+                    fails.append("membership test disagrees with == for %s, %s" % (a, b))
+            except Exception as e:
+                fails.append("vspace(%s) != vspace(%s) raised %s" % (a, b, exc_sig(e)))
     for name in ("f64 (2,)", "c128 (2,)", "f32 (2,)", "f64 (1,2)", "tuple", "dict", "list", "f64 (0,)"):
         x = vals[name]
         vs = vspace(x)
